@@ -7,7 +7,7 @@ From Coq Require Import NArith ZArith List Bool.
 From ZV.Gen Require Import Gen_C14.
 From ZV.Mem Require Import Cwksp CwkspProofs Estimate EstimateProofs LevelDefs LevelProofs DBuffers DBuffersProofs C14Final
                           History HistoryProofs HistoryLevels CParamsProofs NegLevelProofs
-                          DOwner DOwnerProofs CDictLevel C14Round2 MtOwner MtOwnerProofs.
+                          DOwner DOwnerProofs CDictLevel C14Round2 MtOwner MtOwnerProofs COwner COwnerProofs.
 Import ListNotations.
 Local Open Scope N_scope.
 
@@ -539,3 +539,25 @@ Theorem mt_free_releases_all :
     live_after 0 (e0 ++ mt_all_events outs ++ mt_free_events z s) = 0.
 Proof. exact mt_free_releases_all_l. Qed.
 Print Assumptions mt_free_releases_all.
+
+(* ---------- round 3: the enclosing heap ZSTD_CCtx (Mem/COwner.v) ---------- *)
+
+(* for EVERY history of a heap compression context - dictionaries loaded by copy / by reference, digested at the first
+   compression, cleared by refPrefix / refCDict / reset(parameters); workspace replaced (also through ZSTD_copyCCtx, which
+   leaves the allocator alone); a multithreaded context created, operated through ANY MtOwner operation with any failure
+   schedule, dropped by a thread-pool switch; every allocation allowed to fail - the bytes outstanding at the allocator,
+   the context itself included, are EXACTLY ZSTD_sizeof_CCtx *)
+Theorem cctx_sizeof_exact :
+  forall z ops c outs,
+    c_run z cown0 ops = (c, outs) ->
+    live_after (z_cctx z) (flat_map snd outs) = c_sizeof z c.
+Proof. exact cctx_sizeof_exact_l. Qed.
+Print Assumptions cctx_sizeof_exact.
+
+(* ZSTD_freeCCtx (multithreaded context first, then the dictionaries, the workspace, the structure) leaves nothing *)
+Theorem cctx_free_releases_all :
+  forall z ops c outs,
+    c_run z cown0 ops = (c, outs) ->
+    live_after (z_cctx z) (flat_map snd outs ++ c_free_events z c) = 0.
+Proof. exact cctx_free_releases_all_l. Qed.
+Print Assumptions cctx_free_releases_all.
